@@ -11,7 +11,11 @@
    (interned: equal bytes = equal token), the mark verified by an independent HKDF-SHA1/HMAC-SHA1 implementation,
    authenticator results, probe observables (no byte to the client, no dial, AddProbe, held open until the client
    closes or the deadline).
-4. freshness at scale: response salts of many real connections, pairwise distinct (TLC: every token is the next one).
+4. concurrent stage (`storm`): 16 goroutines x 500 (thorough 3000) genuine handshakes on ONE key at the same instant for
+   each marked cipher class (chacha20, aes-256, aes-192), capacity-0 replay cache; every response salt must be new and
+   carry the mark; 300 (1000) recordings per class are reflected (whole / truncated / extended / own stream) while more
+   handshakes run: all must be refused as ERR_REPLAY_SERVER.
+5. freshness at scale: response salts of many real connections, pairwise distinct (TLC: every token is the next one).
 """
 import json, os
 import vlib
@@ -30,6 +34,8 @@ ASSUME = [
 KEYS = {   # must equal KeysQ / KeysX of spec/TcpAuthMC.tla (checked against the New step of the generated behaviours)
     "Q": [dict(name=1, cls=1, sec=1), dict(name=2, cls=2, sec=1), dict(name=3, cls=3, sec=2), dict(name=4, cls=4, sec=2),
           dict(name=5, cls=1, sec=1)],
+    # driver `storm`: one key per cipher class with marked salts
+    "S3": [dict(name=1, cls=1, sec=1), dict(name=2, cls=2, sec=2), dict(name=3, cls=3, sec=3)],
     "X": [dict(name=1, cls=4, sec=1), dict(name=2, cls=3, sec=1), dict(name=3, cls=2, sec=1), dict(name=4, cls=1, sec=1)],
 }
 
@@ -83,6 +89,25 @@ def count(ctx, rows, info):
     c["server_replays_refused"] += sum(1 for r in rows if r.get("ev") == "Auth" and r.get("st") == "ERR_REPLAY_SERVER")
 
 
+def storm(ctx):
+    """Concurrent stage: 16 goroutines x N genuine handshakes on ONE key at the same instant (per marked cipher class)
+    through the real authenticator with a capacity-0 replay cache, then reflections of the recordings in the middle of
+    more handshakes.  Overlapping IsServerSalt / GetSalt computations of one generator must still mark every response
+    salt and recognise every reflected one."""
+    drv = ta_common.driver(ctx)
+    n, sample = (500, 300) if ctx.quick else (3000, 1000)
+    tf = os.path.join(ctx.scratch, "storm.ndjson")
+    info, _ = ta_common.run_driver(ctx, [drv, "storm", "-g", "16", "-n", str(n), "-sample", str(sample), "-out", tf,
+                                         "-seed", str(ctx.seed)], "storm", timeout=900)
+    res = ta_common.validate_ta(ctx, tf, KEYS["S3"], "storm g=16 n=%d sample=%d" % (n, sample), ta_common.C08_KINDS)
+    ctx.cov["storm"] = info
+    ctx.cov["response_salts"] = ctx.cov.get("response_salts", 0) + res["mass"]
+    ctx.cov["server_replays_refused"] = ctx.cov.get("server_replays_refused", 0) + info.get("reflections", 0) \
+        - info.get("reflections_accepted", 0)
+    ctx.cov["evaluations"] += 3
+    ctx.cov["distinct_nontrivial"] += 3
+
+
 def run(ctx):
     exhaustive(ctx)
     n = 120 if ctx.quick else 1200
@@ -97,6 +122,7 @@ def run(ctx):
         if i == 0:
             ctx.sample({"behaviour": behs[0]})
             ctx.sample({"trace_head": rows[:14]})
+    storm(ctx)
     # freshness at scale
     drv = ta_common.driver(ctx)
     nconn = 3000 if ctx.quick else 100000
